@@ -308,7 +308,8 @@ def prop_hex_one_char_replaced(pos: int, k: int, three: bool) -> bool:
 
 
 SPECIAL_NUM = ["inf", "-inf", "nan", "Infinity", "1e999", "-1e999", "inf%", "-inf%", "nan%", "1e999%", "9" * 400, "9" * 400 + "%", ".", "-", "+", "e",
-               "1e", "%", "%%", "1%%", "0x10", "1_0", " 5 ", "５", "٣", "1e-400", "--1", "1.2.3", "255.5", "-0.0", "1/2"]
+               "1e", "%", "%%", "1%%", "0x10", "1_0", " 5 ", "５", "٣", "1e-400", "--1", "1.2.3", "255.5", "-0.0", "1/2",
+               "-1", "-0.5", "-1.0", "2", "1.5", "-1e-9", "101%", "-5%", "361", "-361", "256", "-1e308", "1e308"]
 
 
 def prop_special_numeric_component(k: int, pos: int, four: bool, as_list: bool) -> bool:
@@ -330,7 +331,20 @@ def prop_special_numeric_component(k: int, pos: int, four: bool, as_list: bool) 
     parts[pos] = s
     ok = (_color_ok(t) and _color_ok(("rgba(" if four else "rgb(") + ", ".join(parts) + ")") and _color_ok("hsl(" + s + ", 50%, 50%)")
           and _color_ok("hsl(120, " + s + ", 50%)") and _pair_ok(t, "#ffffff"))
-    return ok
+    if not ok:
+        return False
+    # the same spelling as alpha / lightness of translucent notations and as a float component of all-float 4-tuples
+    ok = (_color_ok("hsla(0, 100%, 50%, " + s + ")") and _color_ok("rgba(10, 20, 30, " + s + ")") and _color_ok("hsla(0, 100%, " + s + ", 0.5)")
+          and _pair_ok("hsla(0, 100%, 50%, " + s + ")", "#000000"))
+    if not ok:
+        return False
+    try:
+        v = float(s)
+    except ValueError:
+        return True
+    ft = [0.0, 1.0, 0.5, 0.5]
+    ft[pos] = v
+    return _color_ok(tuple(ft)) and _pair_ok(tuple(ft), "#000000")
 
 
 def prop_tuple0() -> bool:
